@@ -657,15 +657,9 @@ fn oracle(h: &Hist, obs: &[Obs]) -> Verdict {
         let now = st.now as u32;
         if *o == Obs::Err(9) {
             let msg = PANIC_MSG.with(|m| m.borrow().clone());
-            // RRSIG covering DNSKEY with no DNSKEY record of that owner in the section
-            let orphan = st.answers.iter().any(|a| match a {
-                MAns::S(s) if s.tc == 48 => !st.answers.iter().any(|b| matches!(b, MAns::R(r) if name_eq(&r.name, &s.name) && r.data.rtype() == 48)),
-                _ => false,
-            });
-            fails.push((
-                format!("step {i}: panic in the validator: {msg}"),
-                if orphan && msg.contains("Option::unwrap()") { Some("C06-F13-orphan-dnskey-rrsig-panic") } else { None },
-            ));
+            // (the panic on an RRSIG covering DNSKEY without DNSKEY records was repaired in fed49c5;
+            // its witness stays as fixed case 3 and must not panic)
+            fails.push((format!("step {i}: panic in the validator: {msg}"), None));
             continue;
         }
         // completeness on unmodified inputs: a genuine signature inside its window by a served,
@@ -826,7 +820,11 @@ fn sign(key: usize, msg: &[u8]) -> Vec<u8> {
 /// (re)computes key tag / signature of `sig` as a genuine signature by pool key `key` over recs
 fn resign(sig: &mut MSig, key: usize, owner: &MName, recs: &[MRec]) {
     let refs: Vec<&MRec> = recs.iter().collect();
-    let msg = spec_tbs(owner, 1, sig, &refs).expect("labels");
+    // Labels above the owner's label count: there is nothing a signer could have signed
+    let Some(msg) = spec_tbs(owner, 1, sig, &refs) else {
+        sig.sig = SigV::Corrupt { bytes: vec![0x5a; 64] };
+        return;
+    };
     let bytes = sign(key, &msg);
     sig.sig = SigV::Genuine { key, msg, bytes };
 }
@@ -1313,7 +1311,8 @@ fn colliding_key(k: &MKey, salt: u8) -> MKey {
     f
 }
 
-/// hand-made minimal witnesses of the four known findings (indices 0..4 of every run)
+/// hand-made minimal witnesses of the findings (indices 0..4 of every run); F13 is repaired
+/// (fed49c5): its witness must give Bogus / Indeterminate marks, never a panic
 fn fixed_hist(which: u64) -> Hist {
     let lab = |s: &str| -> MName { s.split('.').filter(|x| !x.is_empty()).map(|x| x.as_bytes().to_vec()).collect() };
     let zone = lab("example");
@@ -1352,7 +1351,7 @@ fn fixed_hist(which: u64) -> Hist {
             kind = "fixed:F5b";
         }
         _ => {
-            // F13: a stray RRSIG covering DNSKEY
+            // F13 (fixed): a stray RRSIG covering DNSKEY
             let mut s2 = b.sig.clone();
             s2.tc = 48;
             s1.answers.push(MAns::S(s2));
@@ -1647,7 +1646,7 @@ fn case(seed: u64, index: u64, thorough: bool) -> CaseOut {
 const SLEEP_BASE: u64 = 1 << 40;
 
 fn main() {
-    quiet_panics();
+    if std::env::var("C06_LOUD").is_err() { quiet_panics(); }
     let args = parse_args();
     if args.extra.contains_key("genkeys") {
         for _ in 0..3 {
